@@ -1,6 +1,6 @@
 """C19 sidecar contracts: pydoctor/visitor.py (walk with extensions and pruning)."""
 from pyvc.contracts import Loop
-from contracts.shapes import register_shapes, register_visitor_shapes
+from contracts.shapes import register_shapes, register_visitor_shapes, register_builder_shapes
 
 V = 'pydoctor/visitor.py'
 EV = 'Seq[Tuple[Int,Opt[Obj[Ext]],Obj[Node]]]'
@@ -16,6 +16,7 @@ def register(reg):
     reg.pid = 'C19'
     register_shapes(reg)
     register_visitor_shapes(reg)
+    register_builder_shapes(reg)
     reg.ghosts['trace'] = EV
 
     # ---- assumed behaviour of the user-supplied methods (worst case over pruning actions) -----------------
@@ -77,3 +78,27 @@ def register(reg):
                  lets={'cs': 'children_of(ob)'}, opaque=['walk_spec', 'open_spec'], exit_hints=['unfold(walk_spec(self, ob))'],
                  loops={0: Loop(index='k', modifies=['trace'], invariant=[
                      'trace + rest_walk(self, cs, k) == old(trace) + open_spec(self, ob) + rest_walk(self, cs, 0)'])})
+
+    # ---- scope stack of the AST builder: push/pop are inverse, the stack is a stack ------------------------
+    A = 'pydoctor/astbuilder.py'
+    reg.contract('pydoctor/model.py', 'Documentable.setLineNumber', params={'lineno': 'Int'}, raises={}, assumed=True,
+                 modifies=['linenumber', 'sourceHref'], source='touches only the line/source fields of the object')
+    MODOK = ('(isinstance(obj, Module) and self.currentMod is None) or '
+             '(not isinstance(obj, Module) and ((self.currentMod is not None and (obj.parentMod is None or obj.parentMod == self.currentMod)) '
+             'or (self.currentMod is None and obj.parentMod is None)))')
+    reg.contract(A, 'ASTBuilder.push', params={'obj': 'Ref[Documentable]', 'lineno': 'Int'},
+                 requires=[MODOK], raises={},
+                 modifies=['_stack', 'current', 'currentMod', 'parentMod', 'linenumber', 'sourceHref'],
+                 ensures=['self._stack == old(self._stack) + [old(self.current)]', 'self.current == obj',
+                          'self.currentMod == (obj if isinstance(obj, Module) else old(self.currentMod))'])
+    reg.contract(A, 'ASTBuilder.pop', params={'obj': 'Ref[Documentable]'},
+                 requires=['self.current == obj', 'len(self._stack) > 0'], raises={},
+                 modifies=['_stack', 'current', 'currentMod'],
+                 ensures=['self._stack == old(self._stack)[:len(old(self._stack)) - 1]',
+                          'self.current == old(self._stack)[len(old(self._stack)) - 1]'])
+    # push followed by pop of the same object restores the scope: a lemma over the two contracts
+    reg.lemma('push_pop_inverse',
+              vars={'s0': 'Seq[RefN[Documentable]]', 'c0': 'RefN[Documentable]', 's1': 'Seq[RefN[Documentable]]',
+                    's2': 'Seq[RefN[Documentable]]', 'c2': 'RefN[Documentable]'},
+              hyps=['s1 == s0 + [c0]', 's2 == s1[:len(s1) - 1]', 'c2 == s1[len(s1) - 1]'],
+              goal=['s2 == s0', 'c2 == c0'])
